@@ -189,6 +189,9 @@ def run(ctx):
                 ctx.count("factor-charge-checked")
                 if tuple(r.n) != want:
                     ctx.fail("oracle", f"c02:charge:{which}", f"{which} factor {part} carries charge {r.n}, expected {want} ({kwf})", case=case, concrete=True)
+    # results on lazily held / fused operands are consistent too (is_consistent + exact relations)
+    from .. import views
+    views.run(ctx, 250 if ctx.quick else 4000, 15 if ctx.quick else 200, which=("R1", "R3", "R3"))
 
 
 def search(ctx, broken, budget):
